@@ -1,0 +1,46 @@
+//go:build verif
+
+// Yield points for the deterministic simulator in /verif (build tag "verif"). With the tag
+// off, verif_nohook.go provides an empty simYield and none of this is compiled.
+
+package column
+
+import "github.com/kelindar/smutex"
+
+// SimPoint identifies a yield point of the commit, read, insert and snapshot protocols.
+type SimPoint uint8
+
+const (
+	simBeforeRLock   SimPoint = 1 // about to take the block read latch; arg = block
+	simBeforeLock    SimPoint = 2 // commit id drawn, about to take the block write latch; arg = block
+	simAfterUnlock   SimPoint = 3 // block write latch released; arg = block
+	simMidCommit1    SimPoint = 4 // write latch held, row markers applied; arg = block
+	simMidCommit2    SimPoint = 5 // write latch held, one column applied, its computed columns not yet; arg = block
+	simMidCommit3    SimPoint = 6 // write latch held, all columns applied, commit not yet emitted; arg = block
+	simAfterReserve  SimPoint = 7 // insert reserved its offset; arg = offset
+	simKeyChecked    SimPoint = 8 // InsertKey/UpsertKey found the key absent, insert not yet started
+	simSnapshotPhase SimPoint = 9 // arg 1: recorder opened, 2: state written, 3: recorder closed, log not yet copied
+)
+
+// Exported aliases so that the simulator can name the points.
+const (
+	SimBeforeRLock   = simBeforeRLock
+	SimBeforeLock    = simBeforeLock
+	SimAfterUnlock   = simAfterUnlock
+	SimMidCommit1    = simMidCommit1
+	SimMidCommit2    = simMidCommit2
+	SimMidCommit3    = simMidCommit3
+	SimAfterReserve  = simAfterReserve
+	SimKeyChecked    = simKeyChecked
+	SimSnapshotPhase = simSnapshotPhase
+)
+
+// SimHook, when set, is called at every yield point with the collection, its sharded block
+// latch and the point's argument. It must be set before any collection is used.
+var SimHook func(c *Collection, latch *smutex.SMutex128, p SimPoint, arg uint32)
+
+func simYield(c *Collection, p SimPoint, arg uint32) {
+	if h := SimHook; h != nil {
+		h(c, c.slock, p, arg)
+	}
+}
